@@ -27,15 +27,18 @@
         `labelSafe` excludes `true…`/`false…` labels and U+1680.
     * `nested_doc_roundtrip_hdr_partial` the same with the header as a hypothesis (`HdrOK`), and
       `nested_doc_roundtrip_partial`, its instance for the directive-disabled buffered configurations.
-    * `buffered_resources_roundtrip_partial`  composition with C17 `flatten_export_repaired`: the
+    * `buffered_resources_roundtrip`  composition with C17 `flatten_export_repaired`: the
         BufferedTriplesEncoder (`encodeResourcesWith`: build, export with default options in any two
-        iteration orders, AddResource, Close) round-trips to a graph isomorphic to the INPUT TRIPLES —
-        under the extra hypothesis `hexp` that the exported resource trees are well-formed (`ResourceOK`).
-  NOT PROVED: that `hexp` follows from `TripleOK` of the input triples (every term of an exported tree
-    is a term of an input triple — true by inspection of `exportStatementsV`, not yet a lemma); so
-    `C02.resources_doc_roundtrip` (Props/C02Doc.lean) formally stays a `def`.
+        iteration orders, AddResource, Close) round-trips to a graph isomorphic to the INPUT TRIPLES, for
+        every list of well-formed triples (`TripleOK`; the exported trees inherit it:
+        Proofs/C02DocNestExport.lean) and every configuration;
+    * `resources_doc_roundtrip_holds`  the full statement `C02.resources_doc_roundtrip` of Props/C02Doc.lean
+        (tables regenerated from /repo, the decoder configuration the driver runs).
+  The theorems are about the REPAIRED code (`d7 = false`: list decision after fix D7; token layer after
+  D4–D6; decoder after D42/D44) and carry the same hypotheses as `plain_doc_roundtrip`.
 -/
 import RdfModel.Proofs.C02DocNestHdr
+import RdfModel.Proofs.C02DocNestExport
 import RdfModel.Proofs.C02DocPrintTok
 import RdfModel.Props.C02Doc
 import RdfModel.Props.C08DocTables
@@ -117,23 +120,29 @@ theorem iso_trans {α γ δ : Type} {a : List (Triple δ)} {b : List (Triple γ)
   have := hp2.map (Triple.map f)
   simpa [List.map_map, Function.comp_def, Proofs.C02Doc.triple_map_map] using this
 
-/-- BufferedTriplesEncoder (turtlerdfio with `resources=true`): composition with C17. `hexp`: the
-    exported resource trees are well-formed (see the file header). -/
-theorem buffered_resources_roundtrip_partial {β : Type} [DecidableEq β] (C : Cfg) (T : Tables) (hT : DocTablesOK T)
+/-- BufferedTriplesEncoder (turtlerdfio with `resources=true`): composition with C17, every
+    configuration, both iteration orders of the subject map. -/
+theorem buffered_resources_roundtrip {β : Type} [DecidableEq β] (C : Cfg) (T : Tables) (hT : DocTablesOK T)
     (hT2 : C08.TablesOK2 T) (hP : Proofs.C02Doc.PrintTablesOK T) (hC : Proofs.C02Doc.NestCfgOK C T) (cfg : Config)
     (pm : Prefix.PM) (label : β → List Nat) (hcfg : ConfigOK C.isSpace T cfg pm) (hlbl : LabelOK T label)
     (ord1 ord2 : List (Term β)) (ts : List (Triple β))
-    (hord1 : ord1.Perm (build ts).subjects) (hord2 : ord2.Perm (build ts).subjects)
-    (hexp : ∀ rs, (build ts).exportResourcesV Opts.default ord1 ord2 (ts.length + 1) = some rs →
-      ∀ r ∈ rs, ResourceOK (ctxOf T cfg pm label) cfg.base r) :
+    (hts : ∀ t ∈ ts, TripleOK (ctxOf T cfg pm label) cfg.base t)
+    (hord1 : ord1.Perm (build ts).subjects) (hord2 : ord2.Perm (build ts).subjects) :
     ∃ (doc : List Nat) (out : List Stmt) (tr : List (Triple BN)),
       encodeResourcesWith T false cfg pm label ord1 ord2 ts = some (.ok doc) ∧
       run C .eof (defaultBase cfg) (defaultPrefixes cfg pm) doc = (out, .clean) ∧
       out.map tripleOfStmt = tr.map some ∧ Spec.Iso tr ts := by
   obtain ⟨rs, hrs, hiso⟩ := C17.flatten_export_repaired ts Opts.default ord1 ord2 hord1 hord2 0
-  obtain ⟨doc, out, tr, h1, h2, h3, h4⟩ := nested_doc_roundtrip C T hT hT2 hP hC cfg pm label hcfg hlbl rs (hexp rs hrs)
+  obtain ⟨doc, out, tr, h1, h2, h3, h4⟩ := nested_doc_roundtrip C T hT hT2 hP hC cfg pm label hcfg hlbl rs
+    (Proofs.C02Doc.export_ok ts hts Opts.default ord1 ord2 hord1 hord2 _ rs hrs)
   refine ⟨doc, out, tr, ?_, h2, h3, iso_trans h4 hiso⟩
   simp only [encodeResourcesWith, hrs, h1]
+
+/-- The full nested-resource statement of Props/C02Doc.lean holds. -/
+theorem resources_doc_roundtrip_holds : resources_doc_roundtrip := by
+  intro β _ cfg pm label ord1 ord2 ts hcfg hlbl hts hord1 hord2
+  exact buffered_resources_roundtrip docCfg Gen.turtle gen_turtle_doc_ok C08.gen_turtle_ok2
+    Proofs.C02Doc.gen_turtle_print_ok docCfg_nest_ok cfg pm label hcfg hlbl ord1 ord2 ts hts hord1 hord2
 
 /-! ### Non-vacuity -/
 
